@@ -14,6 +14,7 @@ import (
 	"net"
 	"os"
 	"path/filepath"
+	"runtime"
 	"sort"
 	"strings"
 	"testing"
@@ -159,6 +160,18 @@ func parseCPTR(path string) (frames [][]byte, err error) {
 	}
 }
 
+// fastTmp prefers a memory-backed directory for the thousands of tiny output directories.
+func fastTmp() string {
+	if st, err := os.Stat("/dev/shm"); err == nil && st.IsDir() {
+		if f, err := os.CreateTemp("/dev/shm", "probe"); err == nil {
+			f.Close()
+			os.Remove(f.Name())
+			return "/dev/shm"
+		}
+	}
+	return ""
+}
+
 func imin(a, b int) int {
 	if a < b {
 		return a
@@ -176,7 +189,7 @@ type c18Obs struct {
 // c18Body is what runs under the scheduler: the real handleConn (which starts the real writer).
 func c18Body(c c18Case, obs *c18Obs) func() {
 	return func() {
-		dir, err := os.MkdirTemp("", "c18-")
+		dir, err := os.MkdirTemp(fastTmp(), "c18-")
 		if err != nil {
 			panic(err)
 		}
@@ -192,7 +205,7 @@ func c18Body(c c18Case, obs *c18Obs) func() {
 		if c.Second > 0 && obs.connErr == io.EOF {
 			// the camera reconnects to the same process (runMain loops over handleConn); the output goes to a
 			// second directory so that the two connections' files can be told apart
-			dir2, err := os.MkdirTemp("", "c18b-")
+			dir2, err := os.MkdirTemp(fastTmp(), "c18b-")
 			if err != nil {
 				panic(err)
 			}
@@ -294,6 +307,7 @@ func c18Replay(cj []byte) []ev.Violation {
 
 func TestVerifC18(t *testing.T) {
 	log.SetOutput(io.Discard)
+	runtime.GOMAXPROCS(1) // the cooperative scheduler runs one goroutine at a time: hand-offs stay on one P
 	if p := os.Getenv("VERIF_REPLAY"); p != "" {
 		_, cj, err := ev.LoadReplay(p)
 		if err != nil {
